@@ -1153,3 +1153,98 @@ rule("D8.format_hex2",
      "& format ! ( \"{b:02x}\" )",
      "shim_hex2 ( * b ) . as_str ( )",
      "format!(\"{b:02x}\"): two lower-case hex digits of a byte (checked for all 256 values at run time in the thorough tier)")
+
+rule("D6.file_metadata_len_q_file",
+     "file . metadata ( ) ? . len ( )",
+     "( match shim_file_len ( & file ) { Ok ( __v ) => __v , Err ( __e ) => return Err ( From :: from ( __e ) ) } )",
+     "file.metadata()?.len() (file system)")
+
+rule("D6.hash_file_q_digest",
+     "digest . hash_file ( & mut f ) ?",
+     "( match shim_hash_file ( & digest , & mut f ) { Ok ( __v ) => __v , Err ( __e ) => return Err ( From :: from ( __e ) ) } )",
+     "Digest::hash_file on an opened file (world function; the digest glue itself is unit digest)")
+
+rule("D6.hash_patch_q_digest",
+     "digest . hash_patch ( & mut f ) ?",
+     "( match shim_hash_patch ( & digest , & mut f ) { Ok ( __v ) => __v , Err ( __e ) => return Err ( From :: from ( __e ) ) } )",
+     "Digest::hash_patch on an opened file (world function)")
+
+rule("D6.imap_values_collect",
+     "$recv . values ( ) . collect ( )",
+     "shim_imap_values ( & $recv )",
+     "IndexMap::values().collect::<Vec<&V>>()")
+
+
+def generic_path_params2(toks):
+    """fn f<P1, P2>(a: P1, b: P2, ..) where P1: AsRef<Path>, P2: AsRef<Path>, { .. a.as_ref() .. }  ->  the instance at
+    P1 = P2 = &Path (as_ref on &Path is the identity)"""
+    out = list(toks)
+    count = 0
+    i = 0
+    while i < len(out):
+        tx = [t.text for t in out[i:i + 16]]
+        if tx[:5] == ["<", "P1", ",", "P2", ">"]:
+            del out[i:i + 5]
+            count += 1
+            continue
+        if tx[:15] == ["where", "P1", ":", "AsRef", "<", "Path", ">", ",", "P2", ":", "AsRef", "<", "Path", ">", ","]:
+            del out[i:i + 15]
+            count += 1
+            continue
+        if tx[:2] == [":", "P1"] or tx[:2] == [":", "P2"]:
+            out[i + 1:i + 2] = T("& Path", out[i].line)
+            count += 1
+        if tx[:4] == [".", "as_ref", "(", ")"] and i > 0 and out[i - 1].text in ("filename", "filepath"):
+            del out[i:i + 4]
+            count += 1
+            continue
+        i += 1
+    return out, count
+
+
+pyrule("D9.generic_path_params2", generic_path_params2, generic_path_params2.__doc__)
+
+rule("D6.parse_i64_full_string",
+     "$recv . parse :: < i64 > ( )",
+     "shim_parse_i64_full ( $recv . as_str ( ) )",
+     "String -> str::parse::<i64>() (optional sign, decimal digits, within range)")
+
+rule("D6.string_lines",
+     "$recv . lines ( )",
+     "shim_lines ( $recv . as_str ( ) )",
+     "String -> str::lines() collected")
+
+rule("D6.path_is_dir_p",
+     "p . is_dir ( )",
+     "shim_path_is_dir ( p )",
+     "Path::is_dir (file system)")
+
+rule("D6.path_is_file_p",
+     "p . is_file ( )",
+     "shim_path_is_file ( p )",
+     "Path::is_file (file system)")
+
+rule("D6.pathbuf_from_path_p",
+     "PathBuf :: from ( p )",
+     "shim_pathbuf_from_path ( p )",
+     "PathBuf::from(&Path)")
+
+rule("D6.fs_read_dir",
+     "fs :: read_dir ( & db . path )",
+     "shim_read_dir ( & db . path )",
+     "fs::read_dir (file system)")
+
+rule("D6.io_not_found",
+     "io :: Error :: new ( io :: ErrorKind :: NotFound , $l:str , )",
+     "shim_io_not_found ( $l )",
+     "io::Error::new(NotFound, literal)")
+
+rule("D6.opt_map_join_nl",
+     "$recv . map ( | d | d . join ( \"\\n\" ) )",
+     "shim_opt_join_nl ( $recv )",
+     "Option<&[String]>::map(|d| d.join(\"\\n\"))")
+
+rule("D8.writeln_display_summary",
+     "writeln ! ( f , \"{}\" , summary ) ? ;",
+     "summary . fmt ( f ) ? ; shim_fmt_str ( f , \"\\n\" ) ? ;",
+     "writeln!(f, \"{}\", summary)?: Display of Summary (the inherent fmt proved in the unit) followed by a newline")
